@@ -150,6 +150,7 @@ func emitBle(s *Sink, d bleDecoder, tag string, inp, spare []byte) string {
 }
 
 func suiteC07(rng *Rng, thorough bool, s *Sink) {
+	defer bleConcurrent(rng, thorough, s)
 	maxBits := 10
 	if thorough {
 		maxBits = 14
@@ -206,6 +207,39 @@ func suiteC07(rng *Rng, thorough bool, s *Sink) {
 				}
 			}
 		}
+		// every field at one of its extreme codes at the same time (all ones / all ones but the top bit - the usual "not
+		// available" codes of unsigned and signed fields), in every combination
+		var plain []bleField
+		for _, f := range d.fields {
+			if !f.enum {
+				plain = append(plain, f)
+			}
+		}
+		nc := 1 << uint(min(len(plain), 11))
+		for c := 0; c < nc; c++ {
+			for _, extra := range []int{0, 4} {
+				inp := make([]byte, d.n+extra)
+				if c%2 == 1 {
+					for i := range inp {
+						inp[i] = 0xFF
+					}
+				}
+				for _, f := range d.fields {
+					if f.enum {
+						setBits(inp, f.start, f.width, uint64(validEnumByte[c%2]))
+					}
+				}
+				for i, f := range plain {
+					top := uint64(1)<<uint(f.width) - 1
+					v := top
+					if i < 11 && c&(1<<uint(i)) != 0 {
+						v = top >> 1
+					}
+					setBits(inp, f.start, f.width, v)
+				}
+				emitBle(s, d, d.name+"-extremes", inp, nil)
+			}
+		}
 		// fully random inputs, longer than the record as well
 		n := 300
 		if thorough {
@@ -238,7 +272,62 @@ func suiteC07(rng *Rng, thorough bool, s *Sink) {
 	}
 }
 
+// bleConcurrent: the decoders are pure functions; called from several goroutines on different inputs they give what they
+// give when called alone
+func bleConcurrent(rng *Rng, thorough bool, s *Sink) {
+	type item struct {
+		d   bleDecoder
+		inp []byte
+	}
+	var items []item
+	for _, d := range bleDecoders() {
+		for k := 0; k < 5; k++ {
+			inp := rng.Bytes(d.n + k)
+			for _, f := range d.fields {
+				if f.enum {
+					setBits(inp, f.start, f.width, uint64(validEnumByte[k%2]))
+				}
+			}
+			items = append(items, item{d, inp})
+		}
+	}
+	rounds := 400
+	if thorough {
+		rounds = 6000
+	}
+	for _, b := range concurrently(8, rounds, len(items), func(i int) string { return decodeReal(items[i].d, items[i].inp, nil) }) {
+		s.Violate("BD concurrent", b, "decoders called from several goroutines disagree with the same calls made alone: "+b)
+	}
+	s.Extra["concurrent_decodes"] += 8 * rounds * len(items)
+}
+
 func suiteC08(rng *Rng, thorough bool, s *Sink) {
+	defer bleConcurrent(rng, thorough, s)
+	// inputs far longer than any record: never "too short", never a panic, the record's fields as for the record alone
+	for _, d := range bleDecoders() {
+		for _, l := range []int{255, 256, 256 + d.n - 1, 257, 511, 512, 1024, 4096, 65536 + d.n - 1} {
+			for fill := 0; fill < 2; fill++ {
+				inp := make([]byte, l)
+				if fill == 1 {
+					for i := range inp {
+						inp[i] = 0xFF
+					}
+					for _, f := range d.fields {
+						if f.enum {
+							setBits(inp, f.start, f.width, uint64(validEnumByte[0]))
+						}
+					}
+				}
+				long := decodeReal(d, inp, nil)
+				short := decodeReal(d, inp[:d.n:d.n], nil)
+				op := fmt.Sprintf("BD %s %s - mut:followed-by-%d-more-bytes", d.name, HEX(inp[:d.n]), l-d.n)
+				s.Extra["long_inputs"]++
+				if long != short || long == "PANIC" || long == "err:too-short" {
+					s.Violate(op, long, fmt.Sprintf("%s on %d bytes gives %s; on the first %d bytes alone %s", d.name, l, long[:min(80, len(long))], d.n, short[:min(80, len(short))]))
+				}
+			}
+		}
+	}
 	for _, d := range bleDecoders() {
 		for l := 0; l <= 64; l++ {
 			for ci := 0; ci < 3; ci++ {
